@@ -77,4 +77,12 @@ let () =
                   | "text" -> []
                   | _ -> TagGen.normal_attr_lvalue [] lit_str (if kind = "model" then TagGen.AkModel else TagGen.AkNormal) (dec_str name) r) in
         enc_str body ^ "|" ^ enc_str (TagGen.bmc_init lit_str b) ^ "|" ^ enc_str hoisted ^ "|" ^ enc_str v ^ "|" ^ enc_str guard ^ "|" ^ enc_str lv
+    | _ -> "ERR args");
+  (* strexpr <esc list> <sexp> : the stringifier's text for the attribute value "{{ e }}" (no scopes) *)
+  register "strexpr" (function
+    | [esc; sx] ->
+        let e = expr_of (parse_sexp sx) in
+        let lit_str = mk_lit_str esc in
+        let names _ = dec_str "95,95,73,78,86,65,76,73,68,95,83,67,79,80,69,95,78,65,77,69,95,95" in
+        enc_str (StrExpr.sx_value names lit_str e)
     | _ -> "ERR args")
